@@ -1521,7 +1521,9 @@ def _words(g, k, distinct=False):
 @model("awkward_NumpyArray_sort_asstrings_uint8")
 def m_sort_asstrings(g):
     words = _words(g, g.n(0, 8))
-    data, off = [], [0]
+    # now and then the strings sit beyond byte 255 of the buffer
+    data = _bytes(g, g.small(250, 300)) if g.chance(0.12) else []
+    off = [len(data)]
     for w in words:
         data.extend(w)
         off.append(len(data))
@@ -1544,13 +1546,15 @@ def m_unique_strings(g):
 def m_argsort_strings(g):
     n = g.n(0, 10)
     p, _ = g.parents(n)
-    words = _words(g, n, distinct=True)
+    stable = g.flag()
+    # equal strings only when the result is unique (stable sort); see KNOWN_DEFECTS for the descending comparator
+    words = _words(g, n, distinct=not (stable and g.chance(0.5)))
     data, st, sp = [], [], []
     for w in words:
         st.append(len(data))
         data.extend(w)
         sp.append(len(data))
-    return dict(fromparents=p, length=n, stringdata=data, stringstarts=st, stringstops=sp, is_stable=g.flag(),
+    return dict(fromparents=p, length=n, stringdata=data, stringstarts=st, stringstops=sp, is_stable=stable,
                 is_ascending=g.flag(), is_local=g.flag())
 
 
